@@ -707,8 +707,24 @@ class Extractor:
                 if sig[i].text == 'impl' and sig[i].kind == 'id':
                     tr = sig[i + 1]
                     gname = 'V' + tr.text
-                    p.rewrite(sig[i].start, tr.end, gname, 'R17', 'impl %s argument named %s' % (tr.text, gname))
-                    names.append('%s: %s' % (gname, tr.text))
+                    end = tr.end
+                    bound = tr.text
+                    if sig[i + 2].text == '<':
+                        # generic arguments of the trait belong to the bound: `&impl Resolver<T>` -> `&VResolver` with `VResolver: Resolver<T>`
+                        depth = 0
+                        k = i + 2
+                        while True:
+                            if sig[k].text == '<':
+                                depth += 1
+                            elif sig[k].text == '>':
+                                depth -= 1
+                                if depth == 0:
+                                    break
+                            k += 1
+                        end = sig[k].end
+                        bound = src.text[tr.start:end]
+                    p.rewrite(sig[i].start, end, gname, 'R17', 'impl %s argument named %s' % (bound, gname))
+                    names.append('%s: %s' % (gname, bound))
                     fired = True
                 i += 1
             if not fired:
